@@ -869,9 +869,17 @@ class Executor:
         yield st, PyVal(("lambda", e, dict(st.env)), "lambda")
 
     def ev_Await(self, e, st):
+        from .calls import opaque_result
         for s, v in self.ev(e.value, st):
-            if not isinstance(v, Raised):
-                s.trace.append(("await",))
+            if isinstance(v, Raised):
+                yield s, v
+                continue
+            s.trace.append(("await",))
+            if isinstance(v, PyVal) and isinstance(v.obj, tuple) and v.obj and v.obj[0] == "coro":
+                _, name, decl, info = v.obj
+                s.trace.append(("call", name, info))
+                yield from opaque_result(self, name, s, decl.get("returns", ANY), decl)
+                continue
             yield s, v
 
     def ev_Starred(self, e, st):
